@@ -150,7 +150,9 @@ pub fn case_strategy(op: BoxedStrategy<Op>) -> BoxedStrategy<Case> {
 
 /// up to `max_ops` operations per thread (long per-thread lists keep the threads overlapping well after the start)
 pub fn case_strategy_n(op: BoxedStrategy<Op>, max_ops: usize) -> BoxedStrategy<Case> {
-    prop_oneof![1 => 2usize..=4, 2 => 5usize..=16, 1 => Just(16usize)]
+    // few threads leave the gate closest together (a first-use window of some hundred nanoseconds), many threads
+    // give more chances of an overlap later on
+    prop_oneof![4 => 2usize..=3, 2 => 4usize..=8, 2 => 9usize..=16]
         .prop_flat_map(move |t| proptest::collection::vec(proptest::collection::vec(op.clone(), 1..=max_ops), t))
         .prop_map(|threads| Case { threads })
         .boxed()
